@@ -85,8 +85,8 @@ void h_emit_data(void) {
   HAVOC_IN();
   __CPROVER_assume(IN.is_static <= 1 && IN.is_tentative <= 1 && IN.is_tls <= 1 && IN.has_init <= 1 && IN.is_array <= 1 &&
                    IN.fcommon <= 1 && IN.align_log <= 5 && IN.size >= 1 && IN.size <= 32);
-  // representation invariant of global_variable(): tentative => no initializer, not thread-local
-  if (IN.is_tentative) __CPROVER_assume(!IN.has_init && !IN.is_tls);
+  // representation invariant of global_variable(): tentative => no initializer
+  if (IN.is_tentative) __CPROVER_assume(!IN.has_init);
   if (IN.has_init) __CPROVER_assume(IN.size <= 4);
   static Type ty; static Obj var;
   ty.kind = IN.is_array ? TY_ARRAY : TY_INT; ty.size = IN.size; ty.align = 1 << IN.align_log;
@@ -102,7 +102,7 @@ void h_emit_data(void) {
   VASSERT(nev >= 2 && nev <= MAXEV, "directive count");
   VASSERT(ev[0].d == (IN.is_static ? D_LOCAL : D_GLOBL) && ev[0].s == name, "binding: .local for internal linkage, .globl otherwise");
   VASSERT(count_ev(D_LOCAL) + count_ev(D_GLOBL) == 1, "exactly one binding directive");
-  if (IN.fcommon && IN.is_tentative) {
+  if (IN.fcommon && IN.is_tentative && !IN.is_tls) {       // a thread-local object is never a common symbol
     VASSERT(nev == 2 && ev[1].d == D_COMM && ev[1].s == name && ev[1].a == size && ev[1].b == want_align,
             "-fcommon: a tentative definition is a common symbol of the object's size and alignment, and nothing else");
   } else {
@@ -111,6 +111,7 @@ void h_emit_data(void) {
     VASSERT(ev[1].d == sect, "section: .data/.tdata with initializer, .bss/.tbss without");
     VASSERT(count_ev(D_DATA) + count_ev(D_BSS) + count_ev(D_TDATA) + count_ev(D_TBSS) == 1, "exactly one section");
     VASSERT(count_ev(D_ALIGN) == 1 && count_ev(D_LABEL) == 1, "one .align and one label");
+    VASSERT(count_ev(D_TYPE_OBJ) == 1 && count_ev(D_SIZE) == 1, "every defined object carries its symbol type and size (.type @object, .size), also in .bss/.tbss");
     int bytes = 0;
     for (int i = 0; i < MAXEV; i++) {
       if (i >= nev) continue;
